@@ -537,7 +537,7 @@ func TestC17(t *testing.T) {
 	rec.Describe("case = (document whose $defs/definitions host populates the subschema-bearing keywords found by reflection over jsonschema.Schema — single, array and map valued, incl. the items and dependencies unions — with hostile keys (\"\", \"/\", \"~\", \"~0\", \"~1\", \"~01\", \"%\", spaces, non-ASCII, digits, \"-\") nested to depth<=4, leaves = unique const markers; 2-6 probes, each a $ref built by the harness's RFC 6901 escaper + RFC 3986 fragment encoder (random raw/percent choice where both are legal), about a quarter of them negative: unknown/absent/non-schema keyword, missing key, index out of range / '-' / signed / leading zero / hex, pointer stopping at a container, bad escape, boolean schema descent). Oracle: acceptance of every marker equals the reference evaluator's (whose pointer walk is cross-checked against the intended location); negatives => Resolve error. Non-trivial: pointer with >=2 segments that needs escaping or passes through a union keyword, and every negative probe. Distinct = distinct (document, ref).",
 		"a negative candidate that happens to exist in the generated host is discarded (counted)",
 		"pointers never cross from one schema resource into an embedded resource with its own $id (no $id is generated here)")
-	rapid.Check(t, propC17(rec))
+	rapid.Check(t, watched("C17", propC17(rec)))
 }
 
 // propC17 is the property body, shared by TestC17 (rapid) and FuzzC17 (native fuzzing over
